@@ -56,11 +56,15 @@ fn roundtrip<const D: usize>(id: &str, w: &mut World<D>, gp_int: bool, rng: &mut
                     }
                     let r1 = catch(|| w.dt.insert(v).is_ok());
                     let r2 = catch(|| dt2.insert(v).is_ok());
-                    let f1 = fingerprint(w.dt.tds());
-                    let f2 = fingerprint(dt2.tds());
+                    let f1 = crate::common::fingerprint_opt(w.dt.tds(), false);
+                    let f2 = crate::common::fingerprint_opt(dt2.tds(), false);
                     if r1 != r2 { same_suffix = format!("0 insert of a general-position point: original {r1:?}, deserialised copy {r2:?}"); break; }
                     else if f1 != f2 {
-                        if std::env::var_os("VH_DEBUG").is_some() { eprintln!("SUFFIX DIFF {id} r={r1:?} p={pi:?}\nORIG {f1}\nCOPY {f2}"); }
+                        if std::env::var_os("VH_DEBUG").is_some() {
+                            let v1 = delaunay::core::util::find_delaunay_violations(w.dt.tds(), None).map(|v| v.len());
+                            let v2 = delaunay::core::util::find_delaunay_violations(dt2.tds(), None).map(|v| v.len());
+                            eprintln!("SUFFIX DIFF {id} r={r1:?} p={pi:?} violations orig={v1:?} copy={v2:?} valid orig={:?} copy={:?} cells {} vs {}\nORIG {f1}\nCOPY {f2}", w.dt.is_valid().is_ok(), dt2.is_valid().is_ok(), w.dt.number_of_cells(), dt2.number_of_cells());
+                        }
                         same_suffix = "0 after the same general-position insertion the two copies differ".into();
                         break;
                     }
